@@ -23,6 +23,77 @@ import sys
 from fractions import Fraction
 
 
+def alpha_canon(src_or_nodes, keep=()):
+    """Source text of statements with every LOCALLY BOUND name (assignment / loop / comprehension / lambda targets) replaced
+    by _v0, _v1, ... in order of first binding: two texts that differ only in the names of local variables get the same
+    canonical form.  Names in `keep` (parameters, globals the template refers to) are left alone."""
+    if isinstance(src_or_nodes, str):
+        nodes = ast.parse(src_or_nodes).body
+    elif isinstance(src_or_nodes, (list, tuple)):
+        nodes = [ast.parse(ast.unparse(n)).body[0] if not isinstance(n, str) else ast.parse(n).body[0] for n in src_or_nodes]
+        nodes = ast.parse("\n".join(ast.unparse(n) for n in nodes)).body
+    else:
+        nodes = ast.parse(ast.unparse(src_or_nodes)).body
+    mod = ast.Module(body=nodes, type_ignores=[])
+    comp_types = (ast.ListComp, ast.SetComp, ast.DictComp, ast.GeneratorExp)
+
+    def targets(t):
+        return [n.id for n in ast.walk(t) if isinstance(n, ast.Name)]
+    # function-level bindings (comprehensions and lambdas are scopes of their own)
+    bound = []
+
+    def collect(n, in_scope):
+        if isinstance(n, comp_types) or isinstance(n, ast.Lambda):
+            return
+        if isinstance(n, ast.Name) and isinstance(n.ctx, ast.Store):
+            bound.append((n.lineno, n.col_offset, n.id))
+        for c in ast.iter_child_nodes(n):
+            collect(c, in_scope)
+    collect(mod, True)
+    order = {}
+    for _, _, name in sorted(bound):
+        if name not in keep and name not in order:
+            order[name] = f"_v{len(order)}"
+
+    class R(ast.NodeTransformer):
+        def __init__(self):
+            self.env = [dict(order)]
+            self.depth = 0
+
+        def lookup(self, name):
+            for e in reversed(self.env):
+                if name in e:
+                    return e[name]
+            return name
+
+        def visit_Name(self, n):
+            return ast.copy_location(ast.Name(id=self.lookup(n.id), ctx=n.ctx), n)
+
+        def scoped(self, n, names):
+            self.depth += 1
+            self.env.append({nm: f"_c{self.depth}_{i}" for i, nm in enumerate(dict.fromkeys(names))})
+            out = self.generic_visit(n)
+            self.env.pop()
+            self.depth -= 1
+            return out
+
+        def visit_Lambda(self, n):
+            names = [a.arg for a in n.args.args]
+            self.depth += 1
+            self.env.append({nm: f"_c{self.depth}_{i}" for i, nm in enumerate(names)})
+            for a in n.args.args:
+                a.arg = self.lookup(a.arg)
+            n.body = self.visit(n.body)
+            self.env.pop()
+            self.depth -= 1
+            return n
+
+        def visit_ListComp(self, n):
+            return self.scoped(n, [x for g in n.generators for x in targets(g.target)])
+        visit_SetComp = visit_DictComp = visit_GeneratorExp = visit_ListComp
+    return ast.unparse(R().visit(mod))
+
+
 class Unsupported(Exception):
     pass
 
